@@ -139,11 +139,18 @@ def _apply(logger, op):
 
 
 def _validate_outcome(logger):
+    # what validate() says, and whether it can say why (the failure texts are recorded at write time)
     try:
         logger.validate()
-        return "valid"
+        out = "valid"
     except Exception as e:
-        return type(e).__name__
+        try:
+            text = str(e)
+        except Exception:
+            text = "?"
+        out = "%s:%s" % (type(e).__name__, "with-explanation" if text.strip() else "without-explanation")
+    recorded = getattr(logger, "_failed_validations", None)  # finer, if eliot still keeps it under this name
+    return [out, len(recorded) if isinstance(recorded, list) else None]
 
 
 def _state(logger):
